@@ -35,6 +35,7 @@ type world struct {
 	mu          sync.Mutex
 	pendingOnce []onceCheck
 	timing      map[string]string
+	hooks       *lib.HookCtl
 }
 
 func (w *world) noteTiming(k, v string) {
@@ -120,7 +121,14 @@ func run(r *lib.Run) {
 	r.Assume("Azure is exercised through azblobproxy.VerifNew with an injected transport (basic faults only)")
 
 	w := &world{r: r}
+	w.hooks = lib.NewHookCtl(uint64(r.Seed))
+	w.hooks.Install()
+	defer func() {
+		w.hooks.UngateAll()
+		w.hooks.Remove()
+	}()
 	defs, budgets := rigTable(r.Quick)
+	filtered := os.Getenv("VERIF_C12_RIGS") != ""
 	if f := os.Getenv("VERIF_C12_RIGS"); f != "" {
 		// development aid: restrict the run to rigs whose name contains one of the given substrings
 		var keep []rigDef
@@ -232,6 +240,19 @@ func run(r *lib.Run) {
 		}
 	}
 	r.Extra("cases_run", total)
+	r.Extra("hook_hits", w.hooks.Hits())
+	if n := w.hooks.GateTimeouts.Load(); n > 0 {
+		r.Count("hook-cancel.gate-timeouts")
+	}
+	// A run whose monitors saw nothing of a required kind is not a pass.
+	if !filtered && r.Violations() == 0 {
+		for _, c := range []string{"local.served-without-backend", "write.exactly-once", "stall.backend-request-abandoned",
+			"oracle.faulty-read.ok", "oracle.read-after-recovery.ok", "fd.full-queue-within-bound", "leak.observations", "quiescence.dir-ok"} {
+			if r.Counter(c) == 0 {
+				r.Inconclusive("no observation of kind " + c)
+			}
+		}
+	}
 	r.Extra("timing", w.timing)
 	r.Extra("rigs", len(w.rigs))
 }
@@ -240,15 +261,17 @@ func run(r *lib.Run) {
 // M-leak: growth "after N faulty requests vs after 2N".
 
 type leakObs struct {
-	Conns    map[string]int `json:"backend_open_connections"`
-	FDs      int            `json:"process_fds"`
-	CacheFDs []string       `json:"fds_into_cache_dirs"`
-	Sigs     map[string]int `json:"-"`
-	NSigs    int            `json:"bazel_remote_goroutines"`
+	Conns           map[string]int `json:"backend_open_connections"`
+	Attributed      map[string]int `json:"connections_reported_per_case,omitempty"`
+	attributedTotal int
+	FDs             int            `json:"process_fds"`
+	CacheFDs        []string       `json:"fds_into_cache_dirs"`
+	Sigs            map[string]int `json:"-"`
+	NSigs           int            `json:"bazel_remote_goroutines"`
 }
 
 func (w *world) observe(withSigs bool) *leakObs {
-	o := &leakObs{Conns: map[string]int{}}
+	o := &leakObs{Conns: map[string]int{}, Attributed: map[string]int{}}
 	var dirs []string
 	for _, rg := range w.rigs {
 		rg.be.closeIdle()
@@ -258,7 +281,15 @@ func (w *world) observe(withSigs bool) *leakObs {
 		}
 	}
 	for _, rg := range w.rigs {
-		o.Conns[rg.name] = rg.be.openConns()
+		rg.mu.Lock()
+		a := rg.attributed
+		rg.mu.Unlock()
+		// connections already reported under their fault class do not count again
+		o.Conns[rg.name] = rg.be.openConns() - a
+		if a > 0 {
+			o.Attributed[rg.name] = a
+			o.attributedTotal += a
+		}
 	}
 	o.FDs = countFDs()
 	o.CacheFDs = cacheFDs(dirs, "")
@@ -279,7 +310,7 @@ func (w *world) grew(ref, now *leakObs) []string {
 			out = append(out, fmt.Sprintf("conns:%s:+%d", rg.name, d))
 		}
 	}
-	if now.FDs-ref.FDs > w.fdSlack() {
+	if now.FDs-ref.FDs > w.fdSlack()+2*(now.attributedTotal-ref.attributedTotal) {
 		out = append(out, fmt.Sprintf("fds:+%d", now.FDs-ref.FDs))
 	}
 	if ref.Sigs != nil && now.Sigs != nil {
@@ -370,7 +401,7 @@ func (w *world) judgeGrowth(a, b *leakObs) {
 			fmt.Sprintf("goroutines parked in bazel-remote code grow with the number of requests: %q +%d between N and 2N cases (%d -> %d)", k, v, a.Sigs[k], b.Sigs[k]),
 			detail(map[string]any{"signature": k, "growth": lib.SigString(lib.SigDiff(a.Sigs, b.Sigs))}))
 	}
-	if d := b.FDs - a.FDs; d > w.fdSlack() {
+	if d := b.FDs - a.FDs; d > w.fdSlack()+2*(b.attributedTotal-a.attributedTotal) {
 		clean = false
 		r.Violation("C12:leak:file-descriptors",
 			fmt.Sprintf("file descriptors of the process grow with the number of requests: %d after N cases, %d after 2N", a.FDs, b.FDs),
